@@ -58,6 +58,9 @@ func plain(x *mon.Ctx) {
 			}
 			c.Detail("scalar", s.d)
 			c.Call("plain containers", func() { plainContainers(c, s) })
+			if rep < x.Scale(2, 8) {
+				c.Call("every container to every decoder", func() { crossDecode(c, s) })
+			}
 			c.End()
 		}
 	}
